@@ -58,6 +58,9 @@ CHECKS = {
  "C12": dict(cat="exploration", tech="property-based testing with one fresh interpreter per generated program; independent parser/evaluator of the qaptools files; interface-level trace logged in the child",
    text="Generated programs with @subqap functions (multiple and nested calls, list/tuple arguments, optional conflicting bodies under one name, negative/large values) run on the real qaptools backend with failing stubs for the external tools; the equation, wire, I/O, schedule and per-function files (the latter as written by the backend's own proving step) are parsed independently and checked for satisfaction, public-value links, completeness and purity of every per-function equation set against the logged trace, digest consistency / reported inconsistency, and glue blocks. Exploration.",
    note=TB + "; qaptools binaries are not available offline (stubs exit 1), so only pysnark's own splitting step runs.", ref="4 (C12), 2.5"),
+ "C18": dict(cat="fault_enumeration", tech="fault enumeration over (termination mode x crash position x backend x autoprove) with one fresh interpreter per case; independent decoders for artefact content",
+   text="Every way a script can terminate (19 modes) is inserted at every enumerated statement position for each file-writing backend with automatic proving on and off, each in its own interpreter with a call counter around backend.prove. Exit status, prove count, presence and decoded content of the artefacts, and exit-hook tracebacks are compared with a model of plain Python's behaviour. The (mode, position, N, backend, autoprove) space is finite and enumerated completely for the stated N.",
+   note="Trusted base: CPython exit semantics as tabulated in harness/checks/c18.py, the decoders, the flatbuffers stand-in and qaptools stubs.", ref="4 (C18)"),
 }
 PENDING = {}
 
